@@ -134,9 +134,14 @@ FIXED_FILTERS = [
 # generators (plain data)
 # ---------------------------------------------------------------------------
 
-def set_heights(spec, incs):
-    """Edge lengths from node heights: leaf 0, internal = max(child heights) + inc/8.  incs: one int per internal node
-    in preorder.  All values are dyadic, so parent height = child height + length exactly.  Iterative (deep trees)."""
+HEIGHT_SCALES = [1.0, 1.0, 1.0, 2.0 ** -30, 2.0 ** -44, 2.0 ** 20]
+
+
+def set_heights(spec, incs, scale=1.0):
+    """Edge lengths from node heights: leaf 0, internal = max(child heights) + scale*inc/8.  incs: one int per internal
+    node in preorder.  All values are dyadic (scale is a power of two), so parent height = child height + length
+    exactly, also for the tiny scales (all ages of a tree below 1e-7: an age order that compares rounded or
+    tolerance-bucketed ages is not monotone there) and the large one.  Iterative (deep trees)."""
     nodes = shapes.spec_nodes(spec)  # preorder
     inc_of = {}
     k = 0
@@ -149,7 +154,7 @@ def set_heights(spec, incs):
         if not s["ch"]:
             h[id(s)] = 0.0
         else:
-            h[id(s)] = max(h[id(c)] for c in s["ch"]) + inc_of[id(s)] / 8.0
+            h[id(s)] = max(h[id(c)] for c in s["ch"]) + scale * inc_of[id(s)] / 8.0
     for s in nodes:
         for c in s["ch"]:
             c["len"] = h[id(s)] - h[id(c)]
@@ -189,8 +194,9 @@ def cases(draw, max_leaves):
             spec = shapes.internal([spec])
     m = sum(1 for s in shapes.spec_nodes(spec) if s["ch"])
     incs = draw(st.lists(st.sampled_from([0, 1, 1, 2, 3, 8]), min_size=m, max_size=m))
-    set_heights(spec, incs)
-    return {"spec": spec, "starts": draw(st.lists(st.integers(0, 10 ** 6), min_size=3, max_size=3)),
+    scale = draw(st.sampled_from(HEIGHT_SCALES))
+    set_heights(spec, incs, scale)
+    return {"spec": spec, "scale": scale, "starts": draw(st.lists(st.integers(0, 10 ** 6), min_size=3, max_size=3)),
             "filters": draw(st.lists(filter_specs(), min_size=2, max_size=2)),
             "precalc": draw(st.booleans())}
 
@@ -874,6 +880,8 @@ def check_case(ctx, case):
     rt, pr = check_tree(ctx, spec, starts, case["filters"], precalc=case["precalc"])
     if n >= 3:
         ctx.nontrivial([rt.canon(ordered=True, lengths=True), starts, case["filters"]])
+    sc = case.get("scale", 1.0)
+    ctx.cls("height_scale:%s" % ("1" if sc == 1.0 else "tiny(all ages < 1e-7)" if sc < 1.0 else "2^20"))
     ctx.cls("nodes:%s" % ("1" if n == 1 else "2" if n == 2 else "3-8" if n <= 8 else "9-20" if n <= 20 else ">20"))
     ctx.sample("random:%s" % ("small" if n <= 8 else "large"), {"tree_with_preorder_indices": pr.newick, "starts": starts,
                                                                  "filters": case["filters"]})
